@@ -17,8 +17,8 @@ from lib import common as C
 
 ID = "C09"
 PROP_MODULES = ["GPVerif.Props.C09"]
-BUILD_TARGETS = ["GPVerif.Props.C09", "GPVerif.Gen.Interp", "GPVerif.Model.Structured", "GPVerif.Model.LDL",
-                 "GPVerif.Model.Proto"]
+BUILD_TARGETS = ["GPVerif.Props.C09", "GPVerif.Gen.Interp", "GPVerif.Gen.StructuredAlgebra", "GPVerif.Model.Structured", "GPVerif.Model.LDL",
+                 "GPVerif.Model.Proto", "GPVerif.Model.StructuredDriver"]
 RULE = ("per family (kron, index/hadamard, lcm, grid, interp, convergence, sgpr, rff, kiss, multitask models) cases are "
         "drawn from the seeded PRNG: sizes n<=10, n*<=5, t<=4, ranks 0..t, d<=3, unequal grid sizes/spacings/lengthscales, "
         "x1!=x2, boundary/on-node/interior interpolation points; each model case is run under the settings cells "
@@ -36,6 +36,7 @@ ASSUMPTIONS = ["R R^T = Kzz^-1 for the cached `_inducing_inv_root` (residual rec
 EXHAUSTIVE = False
 
 GEN = os.path.join(C.LEAN_DIR, "GPVerif", "Gen", "Interp.lean")
+GEN7 = os.path.join(C.LEAN_DIR, "GPVerif", "Gen", "StructuredAlgebra.lean")
 KNOWN_SGPR_KEY = "InducingPointKernel/sgpr_diagonal_correction/mean"
 _state = {}
 
@@ -44,6 +45,8 @@ def generate(ctx):
     sys.path.insert(0, os.path.join(C.VERIF, "harness"))
     from translate import g4_interp_constants as g4
     info, changed = g4.generate(C.REPO, GEN)
+    from translate import g7_structured_algebra as g7
+    ctx.notes["gen_structured_algebra_changed"] = g7.generate(C.REPO, GEN7)
     _state["gen"] = info
     ctx.notes["gen_changed"] = changed
     ctx.notes["keys_coefficients"] = [[str(c) for c in p] for p in info["coeffs"]]
@@ -133,6 +136,17 @@ class Rep:
         return True
 
 
+def tie(ctx, name, gen_rows, model_rows, desc=""):
+    """the REGENERATED definition and the hand-written model must agree exactly (both are exact rationals)"""
+    if gen_rows != model_rows:
+        ctx.count("generated_model_disagreements")
+        if ctx.counters["generated_model_disagreements"] <= 6:
+            ctx.broke("correspondence", f"generated!=model:{name}", f"{desc}: Gen.StructuredAlgebra.{name} evaluates differently from the "
+                      "Structured.* model on this input")
+        return False
+    return True
+
+
 def quiet():
     warnings.simplefilter("ignore")
 
@@ -190,12 +204,13 @@ def case_kron(ctx, idx, tier):
     desc = f"kron d={d} n={n} m={m} t={t} rank={rank} base={kind} same={same}"
 
     def check(rep, R):
-        dense = parse_reply(R[0])[0]
+        gen, dense = parse_reply(R[0])
+        tie(ctx, "multitaskForward", gen, dense, desc)
         rep.close("MultitaskKernel/to_dense", f"{desc}: kernel(x1,x2).to_dense() vs Kx (x) Kt interleaved", got, dense,
                   rtol=1e-12, atol=1e-13)
-        B = parse_reply(R[1])[0]
+        B = parse_reply(R[1])[2]
         rep.close("IndexKernel/covar_matrix", f"{desc}: covar_matrix vs F F^T + diag(var)", Kt, B, rtol=1e-12, atol=1e-13)
-        dd = parse_reply(R[2])[0]
+        dd = parse_reply(R[2])[1]
         want_diag = [[dd[i][i]] for i in range(len(dd))]
         rep.close("MultitaskKernel/diag", f"{desc}: kernel(x,x,diag=True) vs diagonal of the dense Kronecker", gdiag,
                   want_diag, rtol=1e-12, atol=1e-13)
@@ -227,7 +242,9 @@ def case_index(ctx, idx, tier):
     desc = f"index t={t} rank={rank} n={n} m={m} base={kind}"
 
     def check(rep, R):
-        rep.close("IndexKernel/to_dense", f"{desc}: IndexKernel(i1,i2) vs B[i1,i2]", got_idx, parse_reply(R[0])[1],
+        _, gen_g, model_g = parse_reply(R[0])
+        tie(ctx, "indexForward", gen_g, model_g, desc)
+        rep.close("IndexKernel/to_dense", f"{desc}: IndexKernel(i1,i2) vs B[i1,i2]", got_idx, model_g,
                   rtol=1e-12, atol=1e-13)
         rep.close("IndexKernel/hadamard", f"{desc}: covar_x.mul(covar_i) vs B[i1,i2]*K", got_had, parse_reply(R[1])[1],
                   rtol=1e-12, atol=1e-13)
@@ -258,7 +275,9 @@ def case_lcm(ctx, idx, tier):
     desc = f"lcm q={q} t={t} ranks={ranks} n={n} m={m}"
 
     def check(rep, R):
-        rep.close("LCMKernel/to_dense", f"{desc}: kernel(x1,x2).to_dense() vs sum of Kroneckers", got, parse_reply(R[0])[0],
+        gen, model = parse_reply(R[0])
+        tie(ctx, "lcmForward", gen, model, desc)
+        rep.close("LCMKernel/to_dense", f"{desc}: kernel(x1,x2).to_dense() vs sum of Kroneckers", got, model,
                   rtol=1e-12, atol=1e-13)
     return Case("lcm", idx, desc, lines, check, nontrivial=q > 1, sample={"family": "lcm", "desc": desc})
 
@@ -315,8 +334,10 @@ def case_grid(ctx, idx, tier):
     desc = f"grid d={d} sizes={sizes}"
 
     def check(rep, R):
-        T = parse_reply(R[0])[0]
-        D = parse_reply(R[1])[0]
+        gT, T = parse_reply(R[0])
+        gD, D = parse_reply(R[1])
+        tie(ctx, "gridForward[toeplitz]", gT, T, desc)
+        tie(ctx, "gridForward[dense]", gD, D, desc)
         rep.close("GridKernel/use_toeplitz=on", f"{desc}: GridKernel(full_grid).to_dense() vs Toeplitz x Kronecker", results[True], T,
                   rtol=1e-12, atol=1e-13)
         rep.close("GridKernel/use_toeplitz=off", f"{desc}: GridKernel(full_grid).to_dense() vs Kronecker of dense factors",
@@ -494,7 +515,8 @@ def case_kisskernel(ctx, idx, tier):
     desc = f"kisskernel d={d} grid_size={gs} bounds={[tuple(round(v, 3) for v in b) for b in bounds]} symmetric={symmetric} n={n} m={m}"
 
     def check(rep, R):
-        Kuu = parse_reply(R[0])[0]
+        gKuu, Kuu = parse_reply(R[0])
+        tie(ctx, "gridForward[interpolation_mode]", gKuu, Kuu, desc)
         g = len(Kuu)
 
         def wrows(rp):
@@ -704,6 +726,13 @@ def case_sgpr(ctx, idx, tier, hist=None):
                 Kxz, Kzz = mdl.base(X, Z).to_dense(), mdl.base(Z, Z).to_dense()
                 Kzz = torch.triu(Kzz) + torch.triu(Kzz, 1).T   # bit-exact symmetry (the float matrix can be 1 ulp off)
                 Ksz, Kss = mdl.base(Xs, Z).to_dense(), mdl.base(Xs, Xs).to_dense()
+                # the Cholesky primitive of `covar_cache` on the code's own inputs (oracle value for the generated algebra)
+                Rx_f = Kxz @ Rroot
+                d_f = torch.full((nn_,), noise_v)
+                if corr:
+                    d_f = d_f + (Kd - (Rx_f * Rx_f).sum(-1)).clamp(0, math.inf)
+                Lc = torch.linalg.cholesky(torch.eye(m) + Rx_f.T @ (Rx_f / d_f.unsqueeze(-1)))
+                Linv = torch.linalg.solve_triangular(Lc, torch.eye(m), upper=False)
                 # training objective (last: train() itself is an invalidation point)
                 mdl.train(); lik.train()
                 mll = gpytorch.mlls.ExactMarginalLogLikelihood(lik, mdl)
@@ -712,7 +741,7 @@ def case_sgpr(ctx, idx, tier, hist=None):
                          root_dev=root_dev)
         r = y - cm_v
         lines.append(f"sgpr {S(1 if corr else 0)} {M(Kd)} {M(Kxz)} {M(Kzz)} {M(Ksz)} {M(Kss)} {M(r)} "
-                     f"{M(torch.full((nn_,), noise_v))} {M(Rroot)}")
+                     f"{M(torch.full((nn_,), noise_v))} {M(Rroot)} {M(Linv)}")
     desc = (f"{'hist[' + hist + '] ' if hist else ''}sgpr d={d} n={n} m={m} n*={ns} cell={cell} noise={p1['noise']:.3f}")
     pre = f"history:{hist}/" if hist else ""
 
@@ -720,7 +749,8 @@ def case_sgpr(ctx, idx, tier, hist=None):
         rt, at = CELL_TOL[cell]
         for corr, line in zip((True, False), R):
             P = parse_reply(line)
-            (Q, Qs, Keval, cross, cacheR, meanR, covR, mt, ct, mc, cc, resid, quad, det, added, condA) = P
+            (Q, Qs, Keval, cross, cacheR, meanR, covR, mt, ct, mc, cc, resid, quad, det, added, condA,
+             gKeval, gCross, gCache, gMean, gCov, gAdded) = P
             o = obs[corr]
             cmean, n = o["cm"], o["n"]
             tag = f"{desc} sgpr_diagonal_correction={corr}"
@@ -752,6 +782,17 @@ def case_sgpr(ctx, idx, tier, hist=None):
             rep.close(pre + "SGPRPredictionStrategy/covar_cache", f"{tag}: covar_cache vs Rx^T (Rx Rx^T + D)^-1 Rx", o["cache"], cacheR, extra=ex)
             rep.close(pre + "SGPRPredictionStrategy/mean-given-root", f"{tag}: mean vs model through the code's root", o["pm"], mR_full, rt, at, extra=ex)
             rep.close(pre + "SGPRPredictionStrategy/covar-given-root", f"{tag}: covariance vs model through the code's root", o["pc"], covR, rt, at, extra=ex)
+            # (b') the REGENERATED algebra: exact ties to the model, and the implementation given its own Cholesky primitive
+            tie(ctx, "getCovarianceSame", gKeval, Keval, tag)
+            tie(ctx, "getCovarianceCross", gCross, cross, tag)
+            tie(ctx, "defaultMeanCache/defaultPredictiveMean", gMean, meanR, tag)
+            tie(ctx, "addedLoss", [[gAdded]], [[added]], tag)
+            dgc, sgc = maxdiff(fl(gCache), cacheR)
+            if dgc > 1e-9 * sgc:
+                ctx.broke("correspondence", "generated!=model:sgprCovarCache", f"{tag}: generated covar_cache (float Cholesky oracle) "
+                          f"differs from the exact Woodbury model by {dgc:.3e}")
+            rep.close(pre + "SGPRPredictionStrategy/covar_cache-generated", f"{tag}: covar_cache vs the regenerated expression", o["cache"], gCache, extra=ex)
+            rep.close(pre + "SGPRPredictionStrategy/covar-generated", f"{tag}: covariance vs the regenerated expression", o["pc"], gCov, rt, at, extra=ex)
             # (c) dense conditional of the matrix the code represents (FITC-like when the switch is on)
             ok_m = rep.close(pre + "SGPRPredictionStrategy/mean-vs-represented-matrix", f"{tag}: mean vs dense conditional of Q + [corr]diag(K-Q) + s2 I",
                              o["pm"], mc_full, rt, at, extra=ex)
@@ -854,13 +895,14 @@ def case_rff(ctx, idx, tier, hist=None):
         F = mdl.rk(X, X).evaluate_kernel().root.to_dense()
         Fs = mdl.rk(Xs, Xs).evaluate_kernel().root.to_dense()
         c_exact = mdl.covar_module.outputscale.item() if scaled else 1.0
-    lines = [f"rff {S(c_exact)} {M(F)} {M(Fs)} {M(torch.full((n,), noise))} {M(y - cmean)}"]
+    lines = [f"rff {S(c_exact)} {M(F)} {M(Fs)} {M(torch.full((n,), noise))} {M(y - cmean)} {S(math.sqrt(c_exact))} {M(chol)}"]
     desc = f"{'hist[' + hist + '] ' if hist else ''}rff d={d} n={n} n*={ns} num_samples={D} scaled={scaled} cell={cell}"
     pre = f"history:{hist}/" if hist else ""
 
     def check(rep, R):
         rt, at = CELL_TOL[cell]
-        K, Ksx_w, Kss_w, mu, cov, inner, covR, cond = parse_reply(R[0])
+        K, Ksx_w, Kss_w, mu, cov, inner, covR, cond, gInner, gCov = parse_reply(R[0])
+        tie(ctx, "rffInnerTerm", gInner, inner, desc)
         if strat != "RFFPredictionStrategy":
             ctx.broke("correspondence", "rff-strategy", f"{desc}: strategy is {strat}")
         if float(cond) > 1e6:
@@ -882,6 +924,8 @@ def case_rff(ctx, idx, tier, hist=None):
         rep.close(pre + "RFFPredictionStrategy/covar", f"{desc}: covariance vs dense conditional", pc, cov, rt, at)
         rep.close(pre + "RFFPredictionStrategy/covar_cache", f"{desc}: covar_cache covar_cache^T vs I - c F^T A^-1 F", chol @ chol.T, inner, rt, at)
         rep.close(pre + "RFFPredictionStrategy/model", f"{desc}: covariance vs c F* inner F*^T", pc, covR, rt, at)
+        rep.close(pre + "RFFPredictionStrategy/covar-generated", f"{desc}: covariance vs the regenerated expression on the code's own "
+                  "covar_cache", pc, gCov, 1e-9, 1e-10)
     fam = "hist_rff" if hist else "rff"
     return Case(fam, idx, desc, lines, check, sample={"family": fam, "desc": desc})
 
@@ -990,7 +1034,8 @@ def case_kiss(ctx, idx, tier, hist=None):
         rt, at = CELL_TOL[cell]
         P = parse_reply(R[0])
         Kxx, Ksx, Kss, mean, cov, mc, cond = P[:7]
-        Pn, resp, fmc, fmean, dmean, dcov = P[7:]
+        Pn, resp, fmc, fmean, dmean, dcov, gmean = P[7:]
+        tie(ctx, "interpMeanCache/interpPredictiveMean", gmean, mean, desc)
         if strat != "InterpolatedPredictionStrategy":
             ctx.broke("correspondence", "kiss-strategy", f"{desc}: strategy is {strat}")
         if float(cond) > 1e6:
@@ -1181,7 +1226,7 @@ def case_hist_grid(ctx, idx, tier):
 
     def check(rep, R):
         rep.close(f"history:{kind}/GridKernel/to_dense", f"{desc}: GridKernel(full_grid).to_dense() after the history vs the dense formula of "
-                  "the current parameters", got, parse_reply(R[0])[0], rtol=1e-12, atol=1e-13)
+                  "the current parameters", got, parse_reply(R[0])[1], rtol=1e-12, atol=1e-13)
     return Case("hist_grid", idx, desc, lines, check, sample={"family": "hist_grid", "desc": desc})
 
 
@@ -1214,7 +1259,15 @@ def build_cases(ctx, tier, only=None):
 
 def run_cases(ctx, cases, tier, register=True):
     lines = [l for c in cases for l in c.lines]
-    replies = C.run_driver("C09", lines) if lines else []
+    replies = []
+    if lines:
+        try:
+            replies = C.run_driver("C09", lines)
+        except RuntimeError as e:
+            # the driver with the REGENERATED algebra does not build / run: broken tie.  The specification side does not
+            # depend on it: fall back to the model-only driver so that the implementation is still judged.
+            ctx.broke("correspondence", "driver-with-generated-algebra", str(e)[-1500:])
+            replies = C.run_driver("C09spec", lines)
     pos = 0
     reps = []
     fam_counts = {}
